@@ -101,6 +101,15 @@ func genHostileDoc(r *Rand, tier string) Doc {
 
 func genHostileTape(r *Rand, n int) []int {
 	t := make([]int, n)
+	if n > 0 && r.Chance(1, 6) {
+		// the same hostile answer at every callback: the way to drive a traversal in circles
+		d := mkDec(dHostile, r.Intn(nHostile))
+		t = make([]int, 200)
+		for i := range t {
+			t[i] = d
+		}
+		return t
+	}
 	for i := range t {
 		switch r.Pick(3, 3, 8, 2, 3, 2) {
 		case 0:
@@ -108,9 +117,9 @@ func genHostileTape(r *Rand, n int) []int {
 		case 1:
 			t[i] = dConsume
 		case 2:
-			t[i] = mkDec(dHostile, r.Intn(24))
+			t[i] = mkDec(dHostile, r.Intn(nHostile))
 		case 3:
-			t[i] = mkDec(dError, r.Intn(nErrKinds)+nErrKinds*r.Intn(26))
+			t[i] = mkDec(dError, r.Intn(nErrKinds)+nErrKinds*r.Intn(nHostile+2))
 		case 4:
 			t[i] = mkDec(dReenter, r.Intn(144))
 		case 5:
@@ -189,6 +198,7 @@ func (c10) Exec(sc *Scenario, st *Stats) *Violation {
 		x.tape = NewTape(op.Tape)
 		x.buf = nil
 		x.henv = nil
+		x.structH = op.B%2 == 1
 		if op.A == 1 {
 			x.buf = shared
 			if op.C != 0 {
